@@ -24,6 +24,12 @@ type evRow struct {
 	G  string `json:"g,omitempty"` // "" | future | missing | nil | text | toolate
 }
 
+// evK2 is a two-column grouping key (columns k, k2).
+type evK2 struct {
+	A any `json:"k"`
+	B any `json:"k2"`
+}
+
 type evCase struct {
 	core.CaseRef
 	Kind    string  `json:"kind"` // tumbling | sliding | session
@@ -44,6 +50,8 @@ type evCase struct {
 	// place the whole sequence a few hours in the future (legitimate: < 24 h), so that far-future garbage can be
 	// more than 24 h ahead of the clock and yet less than 24 h ahead of the events already accepted.
 	Base int64 `json:"base_abs_ms,omitempty"`
+	// K2: GROUP BY k, k2 (rows carry evK2 keys)
+	K2 bool `json:"two_key_columns,omitempty"`
 }
 
 func (c *evCase) base() int64 {
@@ -78,6 +86,10 @@ func (c *evCase) buildSQL() {
 	if c.Grouped {
 		sel = "k, " + sel
 		gb = "k, " + w
+		if c.K2 {
+			sel = "k, k2, " + sel[3:]
+			gb = "k, k2, " + w
+		}
 	}
 	with := "TIMESTAMP='ts', TIMEUNIT='ms'"
 	if c.MooMs > 0 {
@@ -215,6 +227,9 @@ func (c *evCase) rowMap(r evRow) Row {
 	m := Row{"id": r.ID, "v": r.V}
 	if c.Grouped || c.Kind == "session" {
 		m["k"] = r.K
+		if k2, ok := r.K.(evK2); ok {
+			m["k"], m["k2"] = k2.A, k2.B
+		}
 	}
 	switch r.G {
 	case "future":
